@@ -34,7 +34,7 @@ class C11(EngineProp):
     def cases(self, rng, tier):
         out = super().cases(rng, tier)
         for _ in range(240 if tier == 'quick' else 3000):
-            out.append({'mode': 'tcp', 'role': rng.choice(['client', 'server']), 'profile': 'tcp-cut', 'cut': rng.choice(['eof', 'reset', 'timeout', 'close', 'incomplete', 'runtime']),
+            out.append({'mode': 'tcp', 'role': rng.choice(['client', 'server']), 'profile': 'tcp-cut', 'cut': rng.choice(['eof', 'reset', 'timeout', 'close', 'incomplete', 'runtime', 'close-cancelled']),
                         # the application's close notification asks once more (a last request / a retry): the endpoint is going away, it must be failed
                         'ask_in_on_close': rng.random() < 0.4, 'ask_in_on_error': rng.random() < 0.3,
                         # ... or fails (a flush of application state that hits a full disk, say)
@@ -42,6 +42,11 @@ class C11(EngineProp):
                         'partial': rng.randint(0, 40), 'rr': rng.randint(0, 2), 'streams': rng.randint(0, 2), 'incoming': rng.randint(0, 2),
                         'producers': rng.choice([0, 1, 1, 2]), 'producer_kind': rng.choice(['gen', 'agen']), 'producer_when': rng.choice(['early', 'same-read']),
                         'late_rr': rng.choice([0, 0, 1, 2]), 'late_streams': rng.choice([0, 0, 1])})
+            if out[-1]['cut'] == 'close-cancelled':
+                # a close() whose caller is being cancelled may end with that CancelledError wherever it next suspends: what is judged is
+                # what was pending when it was called (requests, subscribers, handler futures, the one close notification), not how
+                # close() itself ends nor requests that on_close / on_error issue while it runs
+                out[-1].update(ask_in_on_close=False, ask_in_on_error=False, on_close_raises=None)
         # close() at any moment - also while a reconnect is under way (the reconnect listener is suspended closing the old transport or obtaining
         # the next one): after close() has returned the endpoint sends nothing, keepalives included, and none of its tasks is left
         for _ in range(60 if tier == 'quick' else 1500):
@@ -223,6 +228,23 @@ class C11(EngineProp):
                 log['close_raised'] = type(e).__name__
             await loop.settle()
             log['asked_after_close'] = ['pending' if not f.done() else ('cancelled' if f.cancelled() else ('error:' + type(f.exception()).__name__ if f.exception() else 'result')) for f in log['asked']]
+        elif case['cut'] == 'close-cancelled':
+            # the application owns the endpoint in a task of its own (`try: ... finally: await endpoint.close()`, `async with endpoint:`) and
+            # that task is cancelled - a time-out around the block, a failing sibling, shutdown: close() runs while its caller has a
+            # cancellation outstanding
+            async def owner():
+                try:
+                    await asyncio.Event().wait()
+                finally:
+                    try:
+                        await ep.close()
+                    except BaseException as e:
+                        log['close_raised'] = type(e).__name__
+            ot = asyncio.ensure_future(owner())
+            await loop.settle()
+            ot.cancel()
+            await loop.settle()
+            log['asked_after_close'] = ['pending' if not f.done() else ('cancelled' if f.cancelled() else ('error:' + type(f.exception()).__name__ if f.exception() else 'result')) for f in log['asked']]
         elif case['cut'] == 'eof':
             reader.feed_eof()
         elif case['cut'] == 'reset':
@@ -335,7 +357,7 @@ class C11(EngineProp):
         for i, f in enumerate(obs.get('late_futures', [])):
             if not f.startswith('error'):
                 fails.append({'signature': 'request-pending-at-close-not-failed:' + case['role'], 'what': 'TransportTCP, %s: request-response %d issued after the loss and before close() is %s after close()' % (how, i, f)})
-        if obs.get('close_raised'):
+        if obs.get('close_raised') and case['cut'] != 'close-cancelled':
             fails.append({'signature': 'close-raises-the-applications-on_close-exception', 'what': 'TransportTCP, %s: close() raised %s, the exception of the application\'s on_close handler: the rest of the shutdown was skipped' % (how, obs['close_raised'])})
         sweep = set(obs.get('asked_in_final_sweep') or [])
         for i, f in enumerate(obs.get('asked_after_explicit_close') or obs.get('asked_in_on_close', [])):
